@@ -294,6 +294,10 @@ def get_deterministic_sign_multiplier(data: DataArray, dim: str) -> DataArray:
     min_max = xr.concat([data.max(dim), data.min(dim)], dim="sign")
     min_max = min_max.assign_coords(sign=[1, -1])
     sign_multiplier = np.abs(min_max).idxmax("sign")
+    # If all values are negative (tie |max| == |min| for a single value), the
+    # largest-magnitude value is negative as well and the vector has to be flipped
+    if not np.iscomplexobj(data):
+        sign_multiplier = xr.where(data.max(dim) < 0, -1, sign_multiplier)
     # Drop all dimensions except 'mode' so that the index is clean
     for dim, coords in sign_multiplier.coords.items():
         if dim != "mode":
